@@ -171,6 +171,17 @@ func (e *Engine) objectWrites(t types.Type, ws *writeSet) {
 		for _, l := range leaves(u.Elem()) {
 			ws.keys[mapValKey(u, l.path)] = true
 		}
+		// the three components get their sorts here: a loop that is the first to touch the map type must still be
+		// able to state (and keep) the function's frame for each of them, the cardinality included
+		if ks, ok := mapKeySort(u); ok {
+			reg := func(k, srt string) {
+				if _, known := heapSorts[k]; !known {
+					heapSorts[k] = srt
+				}
+			}
+			reg(mapDomKey(u), arrSort(SInt, arrSort(ks, SBool)))
+			reg(mapCardKey(u), arrSort(SInt, SInt))
+		}
 	}
 }
 
@@ -252,6 +263,35 @@ func (e *Engine) callWrites(fr *Frame, cc *ssa.CallCommon, ws *writeSet, depth i
 	ws.why = append(ws.why, "call through function value "+cc.Value.Name())
 }
 
+// pathType resolves the static type of "p.f.g" where p is a parameter and f, g are struct fields (through pointers).
+func pathType(ptype map[string]types.Type, path string) (types.Type, bool) {
+	parts := strings.Split(path, ".")
+	t, ok := ptype[parts[0]]
+	if !ok || len(parts) < 2 {
+		return nil, false
+	}
+	for _, f := range parts[1:] {
+		if pt, isPtr := t.Underlying().(*types.Pointer); isPtr {
+			t = pt.Elem()
+		}
+		stt, isStruct := t.Underlying().(*types.Struct)
+		if !isStruct {
+			return nil, false
+		}
+		found := false
+		for i := 0; i < stt.NumFields(); i++ {
+			if stt.Field(i).Name() == f {
+				t, found = stt.Field(i).Type(), true
+				break
+			}
+		}
+		if !found {
+			return nil, false
+		}
+	}
+	return t, true
+}
+
 func (e *Engine) contractWrites(c *Contract, ws *writeSet, sig *types.Signature, invoke bool, recvT types.Type, cc *ssa.CallCommon) {
 	// parameter name -> static type, for object-level items
 	ptype := map[string]types.Type{}
@@ -288,7 +328,12 @@ func (e *Engine) contractWrites(c *Contract, ws *writeSet, sig *types.Signature,
 		m = strings.TrimSpace(m)
 		if i := strings.Index(m, "("); i > 0 && strings.HasSuffix(m, ")") {
 			fnName, arg := m[:i], strings.TrimSpace(m[i+1:len(m)-1])
-			if t, ok := ptype[arg]; ok {
+			t, ok := ptype[arg]
+			if !ok {
+				// a field path from a parameter (map(nc.commitNonces)): its static type is found by walking the fields
+				t, ok = pathType(ptype, arg)
+			}
+			if ok {
 				switch fnName {
 				case "obj", "elems", "map", "deref":
 					e.objectWrites(t, ws)
